@@ -528,7 +528,7 @@ func (s *IndexedState) rem(ctx *Context, id string) (bool, error) {
 
 func (s *IndexedState) deleteDependencies(ctx *Context, id string) error {
 	Log(DEBUG, ctx, "IndexedState.deleteDependencies", "location", s.Name, "id", id)
-	srs, err := s.search(ctx, Map{KW_DeleteWith: []string{id}})
+	srs, err := s.search(ctx, Map{KW_DeleteWith: []string{id}}, nil)
 	if nil != err {
 		return err
 	}
@@ -626,7 +626,14 @@ func (s *IndexedState) get(ctx *Context, id string, getLock bool) (Map, error) {
 		return nil, NewNotFoundError("%s", id)
 	}
 
-	expired, err := s.expire(ctx, id, fact, 0)
+	// We no longer hold the lock: only look here, and let
+	// purgeExpired do the removal under the write lock (where it
+	// looks again, so that a fact written under this id in the
+	// meantime survives).
+	expired, err := checkExpiration(ctx, fact, 0)
+	if err == nil && expired {
+		_, err = s.purgeExpired(ctx, []string{id})
+	}
 	if err != nil {
 		Log(ERROR, ctx, "IndexedState.Get", "error", err, "when", "expiring")
 		return nil, err
@@ -691,18 +698,79 @@ func (s *IndexedState) expire(ctx *Context, id string, fact map[string]interface
 
 // Search queries the term index for the given pattern (represented as JSON).
 // Obtains and releases the FDS mutex.
+// purgeExpired removes those of the given ids that are (still)
+// expired, together with their dependents.
+//
+// The read paths (Get, Search, FindRules) hold at most the read lock
+// when they notice an expired fact, and removing it writes the maps,
+// the indexes and storage.  So they only collect the ids and call
+// this method after releasing their lock.  Returns the ids (of the
+// given ones and of their dependents) that are gone afterwards.
+func (s *IndexedState) purgeExpired(ctx *Context, ids []string) (map[string]bool, error) {
+	if len(ids) == 0 {
+		return nil, nil
+	}
+	s.slock(ctx, false)
+	defer s.sunlock(ctx, false)
+	before := make([]string, 0, len(s.IdToFact))
+	for id := range s.IdToFact {
+		before = append(before, id)
+	}
+	var first error
+	for _, id := range ids {
+		fact, have := s.IdToFact[id]
+		if !have {
+			continue
+		}
+		if _, err := s.expire(ctx, id, fact, 0); err != nil && first == nil {
+			first = err
+		}
+	}
+	gone := make(map[string]bool)
+	for _, id := range before {
+		if _, have := s.IdToFact[id]; !have {
+			gone[id] = true
+		}
+	}
+	return gone, first
+}
+
 func (s *IndexedState) Search(ctx *Context, pattern Map) (*SearchResults, error) {
 	timer := NewTimer(ctx, "IndexedState.Search")
 	defer timer.Stop()
 
+	var expired []string
 	s.slock(ctx, true)
-	srs, err := s.search(ctx, pattern)
+	srs, err := s.search(ctx, pattern, &expired)
 	s.sunlock(ctx, true)
+
+	if 0 < len(expired) {
+		gone, perr := s.purgeExpired(ctx, expired)
+		if perr != nil {
+			Log(ERROR, ctx, "IndexedState.Search", "error", perr, "when", "expiring")
+		}
+		if srs != nil && 0 < len(gone) {
+			// Dependents of the expired facts went with them.
+			found := srs.Found[:0]
+			for _, sr := range srs.Found {
+				if !gone[sr.Id] {
+					found = append(found, sr)
+				}
+			}
+			srs.Found = found
+		}
+	}
 
 	return srs, err
 }
 
-func (s *IndexedState) search(ctx *Context, pattern Map) (*SearchResults, error) {
+// search does the work for Search.
+//
+// The caller holds the lock.  If that's only the read lock, the
+// caller passes a slice to collect the ids of the expired facts that
+// the search met (and should then call purgeExpired); otherwise those
+// facts are removed right away.
+func (s *IndexedState) search(ctx *Context, pattern Map, expiredIds *[]string) (*SearchResults, error) {
 	Log(DEBUG, ctx, "IndexedState.search", "pattern", pattern)
 	then := Now()
 
@@ -722,7 +790,12 @@ func (s *IndexedState) search(ctx *Context, pattern Map) (*SearchResults, error)
 			continue
 		}
 
-		done, err := s.expire(ctx, id, fact, now)
+		var done bool
+		if expiredIds == nil {
+			done, err = s.expire(ctx, id, fact, now)
+		} else if done, err = checkExpiration(ctx, fact, now); done {
+			*expiredIds = append(*expiredIds, id)
+		}
 		if err != nil {
 			Log(ERROR, ctx, "IndexedState.search", "error", err, "when", "expiring")
 		}
@@ -777,9 +850,25 @@ func (s *IndexedState) FindRules(ctx *Context, event Map) (map[string]Map, error
 }
 
 func (s *IndexedState) doFindRules(ctx *Context, event Map) (map[string]Map, error) {
+	var expired []string
 	s.slock(ctx, true)
-	defer s.sunlock(ctx, true)
+	acc, err := s.findRulesLocked(ctx, event, &expired)
+	s.sunlock(ctx, true)
 
+	if 0 < len(expired) {
+		// See purgeExpired.
+		gone, perr := s.purgeExpired(ctx, expired)
+		if perr != nil {
+			Log(ERROR, ctx, "IndexedState.FindRules", "error", perr, "when", "expiring")
+		}
+		for id := range gone {
+			delete(acc, id)
+		}
+	}
+	return acc, err
+}
+
+func (s *IndexedState) findRulesLocked(ctx *Context, event Map, expiredIds *[]string) (map[string]Map, error) {
 	acc := make(map[string]Map)
 	ss, err := s.RuleIndex.SearchPatternsMap(ctx, map[string]interface{}(event))
 	if err != nil {
@@ -793,9 +882,12 @@ func (s *IndexedState) doFindRules(ctx *Context, event Map) (map[string]Map, err
 		rule, ok := s.IdToFact[id]
 		Log(DEBUG, ctx, "IndexedState.FindRules", "rule", rule, "ruleId", id)
 
-		expired, err := s.expire(ctx, id, rule, now)
+		expired, err := checkExpiration(ctx, rule, now)
 		if err != nil {
 			Log(ERROR, ctx, "IndexedState.FindRules", "error", err, "when", "expiring")
+		}
+		if expired {
+			*expiredIds = append(*expiredIds, id)
 		}
 		if expired {
 			Log(ERROR, ctx, "IndexedState.FindRules", "expired", expired, "ruleId", id, "rule", rule)
